@@ -33,6 +33,15 @@ CHECKS = {
         note="sorted random degree vectors (exchangeable hidden units); cap per architecture reported in the evidence; feature-major output layout",
         ref="DESIGN.md 4/C06",
     ),
+    "C07": dict(
+        technique="bounded-exhaustive enumeration of every non-trivial mask (2..5 features) x encoding x coupling class x input kind x direction on the real layers, with run-time monitors (bitwise comparison, forward pre-hook on the conditioner)",
+        text="For each of the 7 coupling classes and every non-trivial mask of 2..5 features (all encodings and <=1 deviation among image input / context / unconditional transform / box spline "
+        "for 3 features; thorough: the full product), forward and inverse are run on the real layer: identity positions must be returned bit for bit, a forward pre-hook proves the "
+        "conditioner received exactly the identity features and the context (so its output cannot depend on anything else, for all weights), changing one transformed coordinate must not "
+        "move any other output, and each transformed output must be strictly increasing in its own input over a 7-point alphabet inside and outside the tails.",
+        note="index sets derived from the mask values by the check itself; non-interference among transformed outputs to 1e-12 (vector-kernel rounding), identity outputs bitwise",
+        ref="DESIGN.md 4/C07",
+    ),
     "C09": dict(
         technique="bounded-exhaustive product exploration of the real spline functions on sorted grids concentrated on knots, ulp neighbours, end-points and the tail junction; invariant oracles (monotone, continuous, pinned end-points, exact containment, identity in tails)",
         text="All four spline families x bin counts 1..5 x three boxes and four tail bounds (1 .. 1000) x parameter patterns (all-zero up to strongly non-uniform) x float64/float32 x both "
